@@ -7,6 +7,7 @@ cd /verif/shuttle && cargo build --release --offline
 for v in /verif/variants/*/; do
   if [ -f "$v/Cargo.toml" ]; then (cd "$v" && cargo build --release --offline); fi
 done
+if [ -d /verif/callers/nostd ]; then (cd /verif/callers/nostd && cargo build --release --offline); fi
 if [ -d /verif/miri ]; then
   (cd /verif/miri && MIRIFLAGS="" cargo +nightly miri setup >/dev/null 2>&1 || true)
 fi
